@@ -161,6 +161,8 @@ def _smt_condition(cls, has_short):
             solver_s += dt
             details.append({"witness": name, "result": r})
             if r != "sat":
+                if r != "unsat":
+                    return {"verdict": "unknown", "message": "vacuity witness inconclusive (solver answered %s)" % r}
                 return {"verdict": "error", "message": "vacuity witness failed: " + name, "detail": details}
         return {"verdict": "confirmed", "queries": len(details), "solver_s": round(solver_s, 3), "wall_s": round(time.time() - t0, 2),
                 "detail": details + [{"translator_validation": "%d concrete flag words agree with the real constructor" % n_val}]}
